@@ -12,6 +12,7 @@ import (
 	"github.com/ava-labs/hypersdk/chain"
 	"github.com/ava-labs/hypersdk/codec"
 	"github.com/ava-labs/hypersdk/crypto/bls"
+	"github.com/ava-labs/hypersdk/crypto/ed25519"
 	"github.com/ava-labs/hypersdk/crypto/secp256r1"
 	"github.com/ava-labs/hypersdk/genesis"
 	"github.com/ava-labs/hypersdk/zzverif/chainfx"
@@ -68,6 +69,13 @@ func TestC16(t *testing.T) {
 	for _, s := range signers {
 		alloc = append(alloc, &genesis.CustomAllocation{Address: s.f.Address(), Balance: 1 << 50})
 	}
+	// ZIP-215 edge case: a small-order public key (32 zero bytes) with R = identity, S = 0 verifies for
+	// every message under the consensus rules hypersdk documents; batched and one-by-one
+	// verification must agree on it like on any other signature
+	var edgePK ed25519.PublicKey
+	var edgeSig ed25519.Signature
+	edgeSig[0] = 1
+	alloc = append(alloc, &genesis.CustomAllocation{Address: auth.NewED25519Address(edgePK), Balance: 1 << 50})
 	fx, err := chainfx.New(chainfx.Options{Rules: rules, Alloc: alloc})
 	if err != nil {
 		t.Fatal(err)
@@ -92,6 +100,16 @@ func TestC16(t *testing.T) {
 			t.Fatal(err)
 		}
 		tx, err := chain.NewTransaction(base, []chain.Action{act}, a)
+		if err != nil {
+			t.Fatal(err)
+		}
+		return tx
+	}
+	mkEdgeTx := func() *chain.Transaction {
+		nonce++
+		act := &chainfx.ProgAction{Nonce: nonce, Start: -1, End: -1}
+		base := chain.Base{Timestamp: ts + 5000, ChainID: rules.ChainID, MaxFee: 1 << 40}
+		tx, err := chain.NewTransaction(base, []chain.Action{act}, &auth.ED25519{Signer: edgePK, Signature: edgeSig})
 		if err != nil {
 			t.Fatal(err)
 		}
@@ -146,6 +164,12 @@ func TestC16(t *testing.T) {
 			}
 			var txs []*chain.Transaction
 			for i, sc := range c.Schemes {
+				if sc == "ed25519" && !inv[i] && rng.IntN(12) == 0 {
+					c.Schemes[i] = "ed25519-zip215-edge"
+					txs = append(txs, mkEdgeTx())
+					r.Count("zip215_edge_signatures", 1)
+					continue
+				}
 				ss := byScheme[sc]
 				txs = append(txs, mkTx(ss[rng.IntN(len(ss))], !inv[i]))
 				if inv[i] {
